@@ -4,4 +4,5 @@ let table : (string * (BinNums.coq_N list -> BinNums.coq_N list)) list = [
   ("alloc_mon", AllocCorr.mon_alloc);
   ("framing", FramingCorr.check_framing);
   ("framing_mon", FramingCorr.mon_framing);
+  ("conn", ConnCorr.check_conn);
 ]
